@@ -216,6 +216,22 @@ func init() {
 			}
 		},
 	}
+	plans["C06"] = &Plan{
+		Level: "exploration",
+		Rule: "three monitors over seeded histories. (1) ledger: in concurrent rounds 4 goroutines run 40-80 operations each (9 encoding entry points on values whose output sizes sit around 0, the 4 KiB initial buffer, 8/16 KiB and option.LimitBufferSize -4096..+4096 and x2; Unmarshal; ast MarshalJSON/Raw/String; Quote/HTMLEscape); every returned slice/string is recorded with a checksum at return time and re-read later (at random points of later rounds and at the end of every round, up to 48 MiB held per goroutine); a changed checksum = a later call wrote into returned memory; the race-detector run reports such a write at the moment it happens; the same value must also encode to the same bytes every time. (2) caller buffers: EncodeInto with a destination whose spare capacity (every value 0..72, around len/2, len-64, len-32, len, 2*len, 4096, +-3) ends exactly at a PROT_NONE page, dirty prior contents and an optional prefix: result must be prefix+Encode(v), the prefix untouched, and any write beyond the capacity faults; same for HTMLEscape and utf8.CorrectWith. (3) inputs: after Unmarshal([]byte) (7 configurations x 2 destination shapes), UnmarshalFromString with CopyString over caller-owned memory, sonic.Get([]byte), GetCopyFromString and GetWithOptions(CopyReturn) (8 paths) the caller overwrites its buffer; dumps of the decoded values / Raw and Interface of the located nodes must not change. Runs: default pools, LimitBufferSize lowered to 64 KiB, VM encoder, SSE table, and a race-detector build",
+		Assumptions: []string{"a checksum (FNV-1a 64) change is taken as a change of the bytes", "guard pages fault on any access; the race detector reports unsynchronised conflicting accesses it observes", "only executions actually produced are decided"},
+		MinEvals:    1500, MinEvalsThorough: 60000,
+		Runs: func(string) []*Run {
+			return []*Run{
+				{Name: "default", Flavor: "plain", NBatch: n(4, 16), TimeoutS: n(900, 6000)},
+				{Name: "smallpool", Flavor: "plain", Mode: "smallpool", NBatch: n(6, 16), TimeoutS: n(900, 6000)},
+				{Name: "vm", Flavor: "plain", Mode: "smallpool", NBatch: n(2, 8), Env: []string{"SONIC_ENCODER_USE_VM=1"}, TimeoutS: n(900, 6000)},
+				{Name: "sse", Flavor: "plain", Mode: "smallpool", NBatch: n(2, 8), Env: []string{"SONIC_MODE=noavx2"}, TimeoutS: n(900, 6000)},
+				{Name: "optdec", Flavor: "plain", Mode: "smallpool", NBatch: n(2, 8), Env: []string{"SONIC_USE_OPTDEC=1"}, TimeoutS: n(900, 6000)},
+				{Name: "race", Flavor: "race", Mode: "race", NBatch: n(6, 12), TimeoutS: n(1200, 6000)},
+			}
+		},
+	}
 	plans["C18"] = &Plan{
 		Level: "exploration",
 		Rule: "single-switch metamorphic relations: for a switch S and a random setting R of the 15 other switches, the same value/document is run with R and with R+S and the difference must be exactly S's documented effect: EscapeHTML == encoding/json.HTMLEscape(out_R); SortMapKeys changes member order only (and top-level map keys ascend); NoNullSliceOrMap == out_R of the value with nil slices/maps made empty; ValidateString(encode) == out_R with invalid UTF-8 replaced by \\ufffd; EncodeNullForInfOrNan == out_R of the value with NaN/Inf replaced by a sentinel, sentinel -> null, and no change without NaN/Inf; CompactMarshaler changes no token; NoQuoteTextMarshaler/NoValidateJSONMarshaler change nothing for types without such marshalers; NoEncoderNewline only removes the stream encoder's newline; UseInt64/UseNumber change only how numbers land in interface{}; CopyString/NoValidateJSONSkip change nothing on valid documents; DisallowUnknownFields agrees with encoding/json's DisallowUnknownFields on which documents have unknown keys and changes no accepted value; ValidateString(decode) changes nothing for clean strings and equals decoding the UTF-8-corrected document; UseUnicodeErrors changes nothing without lone surrogate escapes and never changes a value silently; CaseSensitive == encoding/json on the document without the keys that match only case-insensitively. Entry points: encoder.Encode/EncodeInto/MarshalToString/MarshalIndent/stream encoder vs Froze().Marshal, decoder.Decoder+SetOptions/UnmarshalFromString vs Froze().Unmarshal with the same switches. distinct = hash(switch, other switches, type, value/document)",
